@@ -82,10 +82,15 @@ def create_wait_strategy(
             return WaitDecision.no_wait()
 
         # Calculate delay with exponential backoff
-        base_delay: float = min(
-            config.initial_delay_seconds * (config.backoff_rate ** (attempts_made - 1)),
-            config.max_delay_seconds,
-        )
+        try:
+            base_delay: float = min(
+                config.initial_delay_seconds
+                * (config.backoff_rate ** (attempts_made - 1)),
+                config.max_delay_seconds,
+            )
+        except OverflowError:
+            # a float rate overflows long before the cap applies (2.0 ** 1024): that is the cap
+            base_delay = config.max_delay_seconds
 
         # Apply jitter to get final delay
         delay_with_jitter: float = config.jitter_strategy.apply_jitter(base_delay)
